@@ -41,6 +41,10 @@ MUTATIONS = [
     ("dask_expr/io/parquet.py", "        divisions.append(file_min)\n        last_max = file_max", "        divisions.append(file_min)\n        last_max = file_min", "vf.contracts.parquet_stats:DivisionsFromStatistics", "inv-preserved:loop0"),
     ("dask_expr/io/parquet.py", "    divisions.append(last_max)\n    return tuple(divisions), argsort", "    divisions.append(file_min)\n    return tuple(divisions), argsort", "vf.contracts.parquet_stats:DivisionsFromStatistics", "post:known-divisions-are-truthful"),
     ("dask_expr/io/parquet.py", "            # index ranges of two files overlap: divisions are not known\n            return tuple([None] * (len(aggregated_stats) + 1)), None", "            # index ranges of two files overlap: divisions are not known\n            return tuple([None] * len(aggregated_stats)), None", "vf.contracts.parquet_stats:DivisionsFromStatistics", "post:unknown-divisions-are-all-None"),
+    ("dask_expr/_shuffle.py", "        dsk3 = {barrier_token: (barrier, list(dsk2))}", "        dsk3 = {barrier_token: (barrier, list(dsk2)[1:])}", "vf.contracts.layers:DiskShuffleLayer", "post:barrier-waits-for-every-write"),
+    ("dask_expr/_shuffle.py", "            (self._name, j): (collect, p, k, df._meta, barrier_token)", "            (self._name, j): (collect, p, j, df._meta, barrier_token)", "vf.contracts.layers:DiskShuffleLayer", "post:K1-outputs-collect-their-group-after-the-barrier"),
+    ("dask_expr/_shuffle.py", "            (self._name, j): (collect, p, k, df._meta, barrier_token)", "            (self._name, j): (collect, p, k, df._meta, p)", "vf.contracts.layers:DiskShuffleLayer", "post:K1-outputs-collect-their-group-after-the-barrier"),
+    ("dask_expr/_shuffle.py", "            for i, key in enumerate(df.__dask_keys__())\n        }\n\n        # Barrier", "            for i, key in enumerate(df.__dask_keys__()[:-1])\n        }\n\n        # Barrier", "vf.contracts.layers:DiskShuffleLayer", "post:every-input-partition-is-written"),
     ("dask_expr/_repartition.py", "        nsplits[-1] += mod\n", "        nsplits[0] += mod\n", "vf.contracts.layers:MoreNSplits", "post:"),
     ("dask_expr/_repartition.py", "        return (None,) * (1 + sum(self._nsplits))", "        return (None,) * (1 + len(self._nsplits))", "vf.contracts.layers:MoreDivisions", "post:length-new+1"),
     ("dask_expr/io/io.py", "        for part, k in enumerate(self.operand(\"keys\")):\n            dsk[(self._name, part)] = k", "        for part, k in enumerate(sorted(self.operand(\"keys\"))):\n            dsk[(self._name, part)] = k", "vf.contracts.layers:FromGraphLayer", "HARMLESS-OR-UNDECIDED"),
